@@ -35,7 +35,8 @@ class Module:
         desugar(self.tree)
         for node in ast.walk(self.tree):
             for ch in ast.iter_child_nodes(node):
-                ch._parent = node
+                if not isinstance(ch, ast.expr_context):
+                    ch._parent = node
         self.tree._parent = None
         self.is_package = os.path.basename(path) == "__init__.py"
 
